@@ -21,7 +21,12 @@ CONSTANTS MaxParams, DumpCases
 PKs == {"i32", "string", "str", "tuple"}
 ParamLists == UNION { [1..n -> PKs] : n \in 0..MaxParams }
 \* mockable programs: fn / mod (with mock_api), deps generic-ref / impl-ref / no_deps / concrete, sync/async; plus entraited traits
-MProgs == { p \in [mode : {"fn", "mod", "trait"}, nfn : 1..3, deps : {"genref", "implref", "nodeps", "concrete"}, async : BOOLEAN, params : ParamLists] :
+\* stamp: the function is stamped out by a macro_rules! macro: the #[entrait(..)] attribute, `fn` and the name are written in
+\* the macro body, the parameter list and the body come from the macro's caller (two hygiene contexts)
+MProgs == { p \in [mode : {"fn", "mod", "trait"}, nfn : 1..3, deps : {"genref", "implref", "nodeps", "concrete"}, async : BOOLEAN, params : ParamLists, stamp : BOOLEAN] :
+            \* (no_deps only: with a dependency the generated `self` and the receiver end up in different hygiene contexts
+            \*  and the expansion does not compile on any tree - an observation recorded in DESIGN.md, outside the statements)
+            /\ (p.stamp => p.mode = "fn" /\ p.deps = "nodeps" /\ Len(p.params) >= 1)
             /\ (p.mode = "fn" => p.nfn = 1) /\ (p.mode = "mod" => p.nfn \in 2..3) /\ (p.mode = "trait" => p.nfn \in 1..2 /\ p.deps = "genref")
             /\ (p.deps = "concrete" => p.mode = "fn") }
 Scens(p) == IF p.mode = "trait" \/ p.deps = "concrete" THEN {"mock", "partial-panics"} ELSE {"mock", "partial", "impl"}
@@ -57,7 +62,7 @@ Unmock == /\ pc = "unmock"
           /\ UNCHANGED <<p, s, m>>
 \* the Impl<T> path (C01's delegating body)
 Delegate == /\ pc = "delegate"
-            /\ LET b == Body([p @@ [hyg |-> FALSE, opt |-> "unimock"]], m) c == Top(stack) e == [f |-> b.callee, deps |-> IF b.passSelf THEN c.recv ELSE "-", args |-> c.args] IN
+            /\ LET b == Body([mode |-> p.mode, nfn |-> p.nfn, deps |-> p.deps, async |-> p.async, params |-> p.params, hyg |-> FALSE, opt |-> "unimock"], m) c == Top(stack) e == [f |-> b.callee, deps |-> IF b.passSelf THEN c.recv ELSE "-", args |-> c.args] IN
                viol' = viol \cup EnterGuard(stack, Sc(p, s), e) /\ stack' = DoEnter(stack, e)
             /\ pc' = "fn" /\ UNCHANGED <<p, s, m, outcome>>
 FnBody == /\ pc = "fn"
